@@ -204,7 +204,12 @@ def main():
     nmatched = z3.Sum([z3.If(m, 1, 0) for m in match.values()]) if match else z3.IntVal(0)
 
     results = {}
+    only = None
+    if "--only" in sys.argv:
+        only = set(sys.argv[sys.argv.index("--only") + 1].split(","))
     def query(name, extra, expect, allow_hang=False, need_max=True):
+        if only is not None and name.split(".")[0] not in only:
+            return
         s = z3.Solver()
         s.set("timeout", SOLVER_TIMEOUT_MS)
         s.add(base)
@@ -241,6 +246,8 @@ def main():
             agg = dict(result="unsat", expect="unsat", ok=True, seconds=0.0, subqueries=len(wt))
             for j, t in enumerate(wt):
                 query("W.tmp", [t], "unsat", need_max=False)
+                if "W.tmp" not in results:
+                    break
                 r = results.pop("W.tmp")
                 agg["seconds"] = round(agg["seconds"] + r["seconds"], 3)
                 if r["result"] == "sat":
@@ -248,7 +255,8 @@ def main():
                     break
                 if r["result"] != "unsat" and agg["result"] == "unsat":
                     agg.update(result=r["result"], ok=False)
-            results["W." + wname] = agg
+            if only is None or "W" in only:
+                results["W." + wname] = agg
             continue
         query("W." + wname, [z3.Or(wt) if wt else z3.BoolVal(False)], "unsat", need_max=False)
     # C03, "nodes finishing in any order": every pair of non-root node invocations of different pipelines can be in
@@ -271,16 +279,18 @@ def main():
                                                      c[ca["id"]] < c[ra["id"]], c[cb["id"]] < c[rb["id"]]))
                     name = "C.overlap.%d:%d.%d:%d" % (p, i, q, j)
                     query(name, [z3.Not(X), z3.Or(ov)], "sat")
-                    results[name]["pair"] = [p, i, q, j]
+                    if name in results:
+                        results[name]["pair"] = [p, i, q, j]
     # C01
     roots_missing = []
     for p in range(P):
         cs = calls.get((p, 0), [])
         roots_missing.append(z3.Not(z3.Or([x[e["id"]] for e, _ in cs])) if cs else T)
         for e, ev in cs:
-            if ev != 0:
+            if ev != 0 and (only is None or "O" in only):
                 results["O.root-receives-sent-event"] = dict(result="sat", expect="unsat", ok=False, seconds=0, trace=[e["label"]])
-    results.setdefault("O.root-receives-sent-event", dict(result="unsat", expect="unsat", ok=True, seconds=0))
+    if only is None or "O" in only:
+        results.setdefault("O.root-receives-sent-event", dict(result="unsat", expect="unsat", ok=True, seconds=0))
     query("O.every-pipeline-started-when-not-cancelled", [z3.Not(X), z3.Or(roots_missing) if roots_missing else z3.BoolVal(False)], "unsat")
     twice = []
     for key, cs in calls.items():
